@@ -575,7 +575,7 @@ func ruleChannelClose(c *Ctx, rule string) {
 				if desc(e) == "*global:EOF" {
 					hasEOF = true
 				}
-				if stripConv(e) == ssa.Value(fn.Params[1]) {
+				if stripConv(e) == ssa.Value(fn.Params[1]) || origin(e) == ssa.Value(fn.Params[1]) {
 					hasParam = true
 				}
 			}
@@ -1186,10 +1186,10 @@ func ruleShutdownFlags(c *Ctx, rule string) {
 		return
 	}
 	okCmp := false
-	forEachReturnValue(isc, 0, func(v ssa.Value, at ssa.Instruction) {
+	forEachReturnValueThrough(isc, 0, func(v ssa.Value, at ssa.Instruction) {
 		if b, ok := v.(*ssa.BinOp); ok && b.Op == token.GEQ && isFieldLoad(b.X, stF) {
-			k, _ := constInt(b.Y)
-			okCmp = k == 1
+			k, isK := constInt(origin(b.Y)) // the bound may be the argument of a shared 'state reached' helper
+			okCmp = isK && k == 1
 		}
 	})
 	c.check(okCmp, rule, "reverse predicate is state >= closing", posOf(w, isc), "state >= 1", "the reverse path's predicate is not state >= closing")
